@@ -76,6 +76,8 @@ type vfC04Client struct {
 	Tags         []string
 
 	ss *vfC04SafeSearch
+
+	rendered string
 }
 
 // vfC04SafeSearch is an inert filtering.SafeSearch whose pointer identity tells
@@ -108,6 +110,24 @@ func (vfC04Clock) Now() time.Time { return time.Unix(1700000000, 0) }
 type vfC04Model struct {
 	clients map[string]*vfC04Client
 	dhcp    map[netip.Addr]string // address -> hex of the lease's MAC
+
+	// sorted caches names(); it is dropped by every change of clients.
+	sorted []string
+}
+
+// put stores c under its name, replacing the client named old (if not empty).
+func (m *vfC04Model) put(old string, c *vfC04Client) {
+	if old != "" {
+		delete(m.clients, old)
+	}
+	m.clients[c.Name] = c
+	m.sorted = nil
+}
+
+// del removes the client named name.
+func (m *vfC04Model) del(name string) {
+	delete(m.clients, name)
+	m.sorted = nil
 }
 
 func vfC04NewModel() *vfC04Model {
@@ -116,10 +136,14 @@ func vfC04NewModel() *vfC04Model {
 
 // names returns the client names in ascending order.
 func (m *vfC04Model) names() (names []string) {
+	if m.sorted != nil || len(m.clients) == 0 {
+		return m.sorted
+	}
 	for n := range m.clients {
 		names = append(names, n)
 	}
 	sort.Strings(names)
+	m.sorted = names
 
 	return names
 }
@@ -328,6 +352,9 @@ func (m *vfC04Model) allowed(cid string, addr netip.Addr) (d vfC04Decision, ok m
 // render gives the canonical description of a client used to compare the
 // registry's content with the model's.
 func (c *vfC04Client) render() string {
+	if c.rendered != "" {
+		return c.rendered
+	}
 	var ids [4][]string
 	for _, id := range c.IDs {
 		ids[id.Kind] = append(ids[id.Kind], id.Key)
@@ -338,9 +365,11 @@ func (c *vfC04Client) render() string {
 	tags := slices.Clone(c.Tags)
 	sort.Strings(tags)
 
-	return fmt.Sprintf("name=%q serial=%d ips=%v cidrs=%v macs=%v cids=%v own=%t f=%t sb=%t p=%t ss=%t ownbs=%t bs=%v tags=%v",
+	c.rendered = fmt.Sprintf("name=%q serial=%d ips=%v cidrs=%v macs=%v cids=%v own=%t f=%t sb=%t p=%t ss=%t ownbs=%t bs=%v tags=%v",
 		c.Name, c.Serial, ids[vfC04IP], ids[vfC04CIDR], ids[vfC04MAC], ids[vfC04CID],
 		c.OwnSettings, c.Filtering, c.SafeBrowsing, c.Parental, c.SafeSearch, c.OwnBlocked, c.Blocked, tags)
+
+	return c.rendered
 }
 
 // vfC04RenderReal describes a client returned by the code under test in the
@@ -488,12 +517,12 @@ type vfC04Outcome struct {
 // add performs Add on both sides and checks the outcome in both directions.
 func (sys *vfC04Sys) add(t *rapid.T, c *vfC04Client) (o vfC04Outcome) {
 	sys.serial++
-	c.Serial = sys.serial
+	c.Serial, c.rendered = sys.serial, ""
 	o.Verdict, o.Why = sys.m.judge(c, "")
 
 	err := sys.s.Add(context.Background(), sys.persistent(t, c))
 	o.Accepted = err == nil
-	sys.settle(t, fmt.Sprintf("Add(%s)", c.render()), o, err, func() { sys.m.clients[c.Name] = c })
+	sys.settle(t, fmt.Sprintf("Add(%s)", c.render()), o, err, func() { sys.m.put("", c) })
 
 	return o
 }
@@ -501,7 +530,7 @@ func (sys *vfC04Sys) add(t *rapid.T, c *vfC04Client) (o vfC04Outcome) {
 // update performs Update(name, c) on both sides.
 func (sys *vfC04Sys) update(t *rapid.T, name string, c *vfC04Client) (o vfC04Outcome) {
 	sys.serial++
-	c.Serial = sys.serial
+	c.Serial, c.rendered = sys.serial, ""
 	if _, ok := sys.m.clients[name]; !ok {
 		o.Verdict, o.Why = vfC04Reject, "missing"
 	} else {
@@ -510,10 +539,7 @@ func (sys *vfC04Sys) update(t *rapid.T, name string, c *vfC04Client) (o vfC04Out
 
 	err := sys.s.Update(context.Background(), name, sys.persistent(t, c))
 	o.Accepted = err == nil
-	sys.settle(t, fmt.Sprintf("Update(%q, %s)", name, c.render()), o, err, func() {
-		delete(sys.m.clients, name)
-		sys.m.clients[c.Name] = c
-	})
+	sys.settle(t, fmt.Sprintf("Update(%q, %s)", name, c.render()), o, err, func() { sys.m.put(name, c) })
 
 	return o
 }
@@ -544,7 +570,7 @@ func (sys *vfC04Sys) remove(t *rapid.T, name string) (existed bool) {
 	if got != existed {
 		t.Fatalf("RemoveByName(%q) = %t, model says the client exists: %t", name, got, existed)
 	}
-	delete(sys.m.clients, name)
+	sys.m.del(name)
 	sys.checkDump(t, fmt.Sprintf("after RemoveByName(%q)", name))
 
 	return existed
@@ -596,7 +622,7 @@ func (sys *vfC04Sys) checkApply(t *rapid.T, cid string, addr netip.Addr, g vfC04
 	}
 	sys.s.ApplyClientFiltering(cid, addr, setts)
 
-	what := fmt.Sprintf("ApplyClientFiltering(clientid=%q, addr=%s)", cid, addr)
+	what := vfC04Lazy(func() string { return fmt.Sprintf("ApplyClientFiltering(clientid=%q, addr=%s)", cid, addr) })
 	got := setts.ClientName
 	if !ok[got] {
 		t.Fatalf("%s attributed the request to %q, the precedence (decided by %s) allows %v\nregistry:\n  %s\nleases: %v",
@@ -686,7 +712,7 @@ func vfC04Keys(m map[string]bool) (ks []string) {
 
 // checkFound asserts that a lookup result is one of the allowed clients in its
 // current version.
-func (sys *vfC04Sys) checkFound(t *rapid.T, what string, p *Persistent, found bool, ok map[string]bool) {
+func (sys *vfC04Sys) checkFound(t *rapid.T, what fmt.Stringer, p *Persistent, found bool, ok map[string]bool, full bool) {
 	if found != (p != nil) {
 		t.Fatalf("%s: ok=%t but client=%v", what, found, p)
 	}
@@ -699,17 +725,26 @@ func (sys *vfC04Sys) checkFound(t *rapid.T, what string, p *Persistent, found bo
 			strings.Join(sys.modelDump(), "\n  "), sys.m.dhcp)
 	}
 	if found {
-		if got, want := vfC04RenderReal(p), sys.m.clients[name].render(); got != want {
-			t.Fatalf("%s returned a stale or foreign version of %q:\n got  %s\n want %s", what, name, got, want)
+		// the serial tells versions of a client apart; the full content is
+		// compared for lookups by name and in the dump after every operation
+		cur := sys.m.clients[name]
+		if p.UpstreamsCacheSize != cur.Serial || (full && vfC04RenderReal(p) != cur.render()) {
+			t.Fatalf("%s returned a stale or foreign version of %q:\n got  %s\n want %s", what, name,
+				vfC04RenderReal(p), cur.render())
 		}
 	}
 }
+
+// vfC04Lazy defers building a message until it is printed.
+type vfC04Lazy func() string
+
+func (f vfC04Lazy) String() string { return f() }
 
 // checkFindAddr asserts Find(<address>) against the precedence without ClientID.
 func (sys *vfC04Sys) checkFindAddr(t *rapid.T, addr netip.Addr) {
 	_, ok, _ := sys.m.allowed("", addr)
 	p, found := sys.s.Find(addr.String())
-	sys.checkFound(t, fmt.Sprintf("Find(%q)", addr), p, found, ok)
+	sys.checkFound(t, vfC04Lazy(func() string { return fmt.Sprintf("Find(%q)", addr) }), p, found, ok, false)
 	vfC04.Class("find:address")
 }
 
@@ -717,7 +752,7 @@ func (sys *vfC04Sys) checkFindAddr(t *rapid.T, addr netip.Addr) {
 func (sys *vfC04Sys) checkFindID(t *rapid.T, id vfC04ID, text string) {
 	ok := map[string]bool{sys.m.owner(id.Kind, id.Key): true}
 	p, found := sys.s.Find(text)
-	sys.checkFound(t, fmt.Sprintf("Find(%q)", text), p, found, ok)
+	sys.checkFound(t, vfC04Lazy(func() string { return fmt.Sprintf("Find(%q)", text) }), p, found, ok, false)
 	vfC04.Class("find:" + id.Kind.String())
 }
 
@@ -728,5 +763,6 @@ func (sys *vfC04Sys) checkFindByName(t *rapid.T, name string) {
 		want = name
 	}
 	p, found := sys.s.FindByName(name)
-	sys.checkFound(t, fmt.Sprintf("FindByName(%q)", name), p, found, map[string]bool{want: true})
+	sys.checkFound(t, vfC04Lazy(func() string { return fmt.Sprintf("FindByName(%q)", name) }), p, found,
+		map[string]bool{want: true}, true)
 }
